@@ -347,8 +347,33 @@ fn check(run: &Run, cnt: &Cnt, kind: &str, template: &str, text: &str, set: &[(N
     run.violation(
       &format!("{}:`{}`:{}:set-of-{}", kind, template, symbol_class(focus), set.len()),
       &format!("with the bound names {:?}, `{}` evaluates to {} but its meaning `{}` evaluates to {}", names, text, obs, expected_text, show_value(&expected)),
-      json!({"engine":"c10","text":text,"bound_names":names,"expected_text":expected_text,"expected":expected.to_string(),"template":template}),
+      json!({"engine":"c10","text":text,"bound_names":names,"bound_literals":set.iter().map(|(n, _, lit)| json!([n.normal(), lit])).collect::<Vec<_>>(),"expected_text":expected_text,"expected":expected.to_string(),"template":template}),
     );
+  }
+}
+
+/// replay of one recorded (text, bound names): the text is evaluated in a scope binding the names to their literals' values
+pub fn replay_case(case: &serde_json::Value) -> String {
+  let text = case.get("text").and_then(|x| x.as_str()).unwrap_or("");
+  let expected = case.get("expected").and_then(|x| x.as_str()).unwrap_or("");
+  let mut ctx = FeelContext::default();
+  if let Some(bs) = case.get("bound_literals").and_then(|b| b.as_array()) {
+    for b in bs {
+      let name = b.get(0).and_then(|x| x.as_str()).unwrap_or("");
+      let lit = b.get(1).and_then(|x| x.as_str()).unwrap_or("null");
+      match evaluate_meaning(lit) {
+        Ok(v) => ctx.set_entry(&Name::from(name), v),
+        Err(e) => return format!("MACHINERY the recorded literal {} does not evaluate: {}", lit, e),
+      }
+    }
+  } else {
+    return "MACHINERY the recorded case has no bound literals".into();
+  }
+  let scope = Scope::from(ctx);
+  match evaluate_in(&scope, text) {
+    Ok(v) if v.to_string() == expected => format!("PASS `{}` evaluates to {}", text, show_value(&v)),
+    Ok(v) => format!("FAIL `{}` evaluates to {} but its meaning evaluates to {}", text, show_value(&v), expected),
+    Err(e) => format!("FAIL `{}` does not parse or evaluate ({}) but its meaning evaluates to {}", text, e.chars().take(100).collect::<String>(), expected),
   }
 }
 
